@@ -2,7 +2,7 @@ SPECIFICATION SSpec
 CONSTANTS
   LabelSet <- L4
   ValLabels = 2
-  ProbeLabels = 3
+  ProbeLabels = 2
   SMaxLen = 2
   Cmp <- DCompare
   IsSub <- DIsSubset
